@@ -3,5 +3,5 @@
 (* NChunks = maxsubs*(bufmax+borrow)+hist+loan = 4 at the pinned commit; the checks read it from   *)
 (* the running code instead.                                                                       *)
 EXTENDS PubSub
-QV == [maxpubs |-> 2, maxsubs |-> 1, bufmax |-> 1, hist |-> 1, borrow |-> 1, loan |-> 1, overflow |-> FALSE, strategy |-> "retry_fail"]
+QV == [maxpubs |-> 2, maxsubs |-> 1, bufmax |-> 1, hist |-> 1, borrow |-> 1, loan |-> 1, overflow |-> FALSE, strategy |-> "retry_fail", expbuf |-> 64]
 ====
